@@ -32,6 +32,7 @@ QUICK = [
     _c('caps_timeseries', 'caps_ts', dict(T=3)),
     _c('window_storage', 'contract_storage', dict(T=4, win_s=(1, 3), win_c=(0, 3))),
     _c('caps_interval_data', 'caps_dict', dict(T=4, wacc=True)),
+    _c('mixed_discount_rates', 'mixed_wacc', dict(T=3, freq='d', unit='d')),
     _c('caps_interval_data_cet', 'caps_dict', dict(T=4, tz='CET')),
 ]
 THOROUGH = QUICK + [
@@ -62,10 +63,20 @@ TRUSTED = ['vf/refmodel.py (reference model; imports nothing from eaopack)']
 
 def cases(tier, seed):
     lst = THOROUGH if tier == 'thorough' else QUICK
-    return [(cid, dict(shape=SHAPE_OF[cid], kw=dict(kw), level=level)) for cid, kw, level in lst]
+    out = [(cid, dict(shape=SHAPE_OF[cid], kw=dict(kw), level=level)) for cid, kw, level in lst]
+    # assets with their own coarser frequency (volume limit = rate x covered length of the coarse interval): the reference is the real
+    # fine problem plus the constant-rate equalities (C13 machinery)
+    out.append(('coarse_contract_straddles_horizon_end', dict(shape='-', kw={}, level='coarse13', c13=dict(opt='coarse', kind='contract', T=5, win=(2, 9), ec=True))))
+    out.append(('coarse_storage', dict(shape='-', kw={}, level='coarse13', c13=dict(opt='coarse', kind='storage', T=4, eff=0.75))))
+    return out
 
 
-def run_case(case_id, tier, seed, shape, kw, level):
+def run_case(case_id, tier, seed, shape, kw, level, c13=None):
+    if level == 'coarse13':
+        from . import c13 as _c13
+        res = _c13.run_case(case_id, tier, seed, **c13)
+        res['prop'] = PROP
+        return res
     rec = lpsem.Rec(PROP, case_id)
     if level == 'B':
         # fully symbolic (bilinear) queries: short per-query budget; an `unknown` is never a pass -- the case is re-decided at
@@ -106,6 +117,9 @@ def _run(rec, seed, shape, kw, level, stop_on_unknown=False):
 
 
 def observe(case, kwargs, env, rq):
+    if kwargs.get('level') == 'coarse13':
+        from . import c13 as _c13
+        return _c13.observe(case, kwargs['c13'], env, rq)
     D = lift.Domain(theta=env)
     sc = scen.run(D, kwargs['shape'], kwargs.get('kw'), None, False, env=env)
     if rq.get('kind') != 'replay':
@@ -114,6 +128,9 @@ def observe(case, kwargs, env, rq):
 
 
 def judge(case, kwargs, cand, ans):
+    if kwargs.get('level') == 'coarse13':
+        from . import c13 as _c13
+        return _c13.judge(case, kwargs['c13'], cand, ans)
     if cand.get('form') == 'crash' or 'crash' in cand.get('info', {}):
         return (True, 'raises on an in-domain input: ' + ans['error'][:200]) if 'error' in ans else (False, 'no exception')
     return embed_ref.judge(cand, ans)
